@@ -35,6 +35,11 @@ def tasks(tier):
           if tier == 'quick' and (ti + q + si) % 2:
             continue
           out.append(dict(mode=mode, thr=thr, q=q, shapes=[list(s) for s in sh], eps=[0.0, 2.0 ** -20][ti % 2]))
+  out.append(dict(kind='g4', mode='replicated', thr=0.125, q=1, shapes=[[2, 2]], eps=2.0 ** -20, graft='RMSPROP'))
+  if tier == 'thorough':
+    for graft in ('SGD', 'ADAGRAD', 'RMSPROP_NORMALIZED'):
+      out.append(dict(kind='g4', mode='replicated', thr=0.125, q=1, shapes=[[2, 2]], eps=2.0 ** -20, graft=graft))
+    out.append(dict(kind='g4', mode='replicated', thr=0.125, q=2, shapes=[[3], [2, 2]], eps=0.0, graft='RMSPROP'))
   return out
 
 
@@ -63,7 +68,113 @@ def stub_contract(err):
   return z3.Not(z3.fpLT(err, FP.fpv(0.0)))
 
 
+G4_BOUND = 2.0 ** 40
+
+
+def work_g4(t):
+  """G4 (zero-gradient case): from any finite state of bounded magnitude, with finite roots, a zero gradient gives a
+  finite update - full FP32 cone, no arithmetic abstraction."""
+  from ..fpsolve import check_fp
+  t0_ = time.time()
+  dsh.install_root_stub()
+  c = cfg_of(t)
+  c['graft'] = t['graft']
+  c = dsh.full_cfg(c)
+  shapes = [tuple(s) for s in t['shapes']]
+  params = dsh.zeros_tree(shapes)
+  tag = f"G4|{t['mode']}|graft={t['graft']}|q={t['q']}|eps={t['eps']}|" + '+'.join('x'.join(map(str, s)) for s in shapes)
+  opt = dsh.make_opt(c)
+  tr, state = dsh.trace_update(opt, params)
+  leaves = tr.sym_inputs(maker=fp_sym_like)
+  B = FP.fpv(np.float32(G4_BOUND))
+  assume = []
+  for k, nm in enumerate(tr.names):
+    if nm.startswith('a[0]'):
+      leaves[k] = np.zeros(np.shape(tr.flat[k]), np.float32)
+      continue
+    arr = toobj(leaves[k])
+    for x in arr.reshape(-1):
+      if z3.is_fp(x):
+        assume += [z3.Not(z3.fpIsNaN(x)), z3.fpLEQ(z3.fpAbs(x), B)]
+        if 'diagonal_statistics' in nm:
+          assume.append(z3.fpGEQ(x, FP.fpv(0.0)))
+  ctx = Ctx()
+  upd, new = tr.run(FPInterp(ctx), leaves)
+  count = tr.unflatten_in(leaves)[1].count.item()
+  assume += [count >= 0, count <= 2 ** 31 - 2]
+  for a in ctx.stub_log:
+    if a[0] == 'root':
+      for x in a[2][0].reshape(-1):
+        assume += [z3.Not(z3.fpIsNaN(x)), z3.fpLEQ(z3.fpAbs(x), B)]
+  us = [x for a in jax.tree_util.tree_leaves(upd, is_leaf=lambda x: isinstance(x, np.ndarray)) for x in toobj(a).reshape(-1)]
+  sym = [x for x in us if z3.is_fp(x)]
+  bad_const = [x for x in us if not z3.is_fp(x) and not np.isfinite(float(x))]
+  goal = z3.And([z3.And(z3.Not(z3.fpIsNaN(x)), z3.Not(z3.fpIsInf(x))) for x in sym]) if sym else z3.BoolVal(True)
+  name = f'{tag}|G4 zero gradient, finite state (|x| <= 2^40, accumulators >= 0), finite roots: every update entry is finite'
+  if bad_const:
+    r = dict(status='sat', solver='constant folding', wall_s=0.0)
+  else:
+    r = check_fp(assume + [z3.Not(goal)], timeout_s=t.get('timeout', 700))
+  st = {'unsat': 'unsat', 'sat': 'sat'}.get(r['status'], 'unknown')
+  out = dict(name=name, status=st, kind='core', queries=1, solver_s=r['wall_s'], note=f"decided by {r['solver']}; full cone, no abstraction")
+  viol = []
+  if st == 'sat':
+    what = g4_concrete(t)
+    if what:
+      path = write_replay(PID, dict(property=PID, task=t, observed=what))
+      out['status'] = 'violation'
+      viol.append(dict(key=f"C03:g4:{t['graft']}", what=what, replay=path))
+    else:
+      out['status'] = 'spurious'
+      out['note'] = 'candidate did not reproduce on the real code (state outside the reachable set?)'
+      out['kind'] = 'stretch'
+  elif st == 'unknown':
+    out['kind'] = 'stretch'     # best-effort obligation: an undecided attempt is reported, not counted
+    out['note'] = 'solvers did not decide within the budget; G4 is then not covered by this run'
+  tw = check_fp(assume, timeout_s=120)
+  res = [out, dict(name=f'{tag}|twin: G4 assumptions satisfiable', status=tw['status'] if tw['status'] == 'sat' else 'unknown',
+                   kind='twin' if st != 'unknown' else 'stretch', queries=1, solver_s=tw['wall_s'])]
+  return dict(results=res, violations=viol, errors=[], configs=1, samples=[dict(task=t, jaxpr_eqns=tr.n_eqns)],
+              extra=dict(jaxpr_eqns_total=tr.n_eqns, eval_s=round(time.time() - t0_, 2)))
+
+
+def g4_run(t, seed):
+  """real optimizer: moderate or zero gradients, then zero gradients; every update must be finite"""
+  c = cfg_of(t)
+  c['graft'] = t['graft']
+  c = dsh.full_cfg(c)
+  shapes = [tuple(s) for s in t['shapes']]
+  rng = np.random.RandomState(seed)
+  params = {f'p{i}': jnp.asarray(rng.randn(*sh), jnp.float32) for i, sh in enumerate(shapes)}
+  opt = dsh.make_opt(c)
+  state = opt.init(params)
+  for step in range(6):
+    scale = 0.0 if (step >= 3 or seed == 0) else float(10.0 ** rng.randint(-3, 4))
+    g = {k: jnp.asarray(scale * rng.randn(*v.shape), jnp.float32) for k, v in params.items()}
+    u, state = opt.update(g, state, params)
+    for k, v in u.items():
+      if not np.all(np.isfinite(np.asarray(v))):
+        return f'step {step} (gradient scale {scale}): update of {k} is not finite: {np.asarray(v).reshape(-1)[:4]}'
+  return None
+
+
+def g4_concrete(t):
+  import subprocess, sys, os
+  src = REPLAY_SRC.replace('c03.fault_run(t, seed)', 'c03.g4_run(t, seed)')
+  for seed in range(3):
+    out = subprocess.run([sys.executable, '-c', src, json.dumps(t), str(seed)], capture_output=True, text=True, env=dict(os.environ))
+    try:
+      what = json.loads(out.stdout.strip().splitlines()[-1])
+    except Exception:
+      what = None
+    if what:
+      return what
+  return None
+
+
 def work(t):
+  if t.get('kind') == 'g4':
+    return work_g4(t)
   t0_ = time.time()
   dsh.install_root_stub()
   c = cfg_of(t)
@@ -309,7 +420,7 @@ def confirm(t):
 
 def replay(path):
   d = json.load(open(path))
-  what = concrete(d['task'], d['seed'])
+  what = g4_concrete(d['task']) if d['task'].get('kind') == 'g4' else concrete(d['task'], d['seed'])
   if what:
     print(f'VIOLATION property={PID} replay={path}')
     print('  ' + what)
@@ -324,7 +435,9 @@ def run(rep):
       'sharded): root outputs and reported errors are unconstrained float32 (NaN, +-Inf, any value; contract: error is NaN or >= 0), '
       'stored state and gradients arbitrary float32; z3 proves for all of them and every step index: G1/G3 each stored preconditioner '
       'is bit-for-bit the old one or the new root with a finite error strictly below the threshold (quantized: all three stored parts '
-      'unchanged unless accepted), G2 preconditioners and every metric leaf bit-identical when count % q != 0.')
+      'unchanged unless accepted), G2 preconditioners and every metric leaf bit-identical when count % q != 0.  G4 (zero-gradient case '
+      'of the finiteness clause): from every finite state bounded by 2^40 with non-negative accumulators and finite roots, a zero '
+      'gradient yields a finite update - full FP32 cone without abstraction; best-effort (an undecided attempt is reported as such).')
   rep.encode('precondition.distributed_shampoo._pmap_compute_preconditioners/_pmap_quantized_compute_preconditioners/_skip/'
              '_select_preconditioner/_update_preconditioners_fn/efficient_cond/sharded_update_fn/_add_metrics_into_local_stats',
              'precondition/distributed_shampoo.py')
@@ -336,6 +449,6 @@ def run(rep):
                'cone cut: floating-point arithmetic sub-terms feeding the gate are replaced by fresh float32 values (over-approximation)']
   rep.assumptions = ['reported error is NaN or non-negative (it is a maximum of absolute values)',
                      'accepted error implies finite root is a property of the root routine (C01), not of the gate']
-  rep.outside = ['finiteness of the update itself for moderate gradients (G4, not attempted: needs range analysis of the float arithmetic)',
+  rep.outside = ['finiteness of the update for non-zero moderate gradients (1e-12..1e12): needs range analysis through the root (only the zero-gradient case G4 is encoded)',
                  'Newton/eigh choice (inside the stub)']
   run_tasks('vp.props.c03', 'work', ts, report=rep)
